@@ -870,7 +870,7 @@ func (vc *VC) evalCall(env *Env, t CCall) Term {
 		x := vc.evalTerm(env, t.Args[0])
 		oa := vc.heapGet(env.cur, vc.allocKey())
 		// allocated(x): x is not a reference that a later allocation can return (nil included)
-		return tBool(fmt.Sprintf("(< %s %s)", x.S, oa.S))
+		return tBool(fmt.Sprintf("(and (< %s %s) (< (rootof %s) %s))", x.S, oa.S, x.S, oa.S))
 	case "str":
 		// str(bs): the string with the current contents of byte slice bs
 		x := vc.evalTerm(env, t.Args[0])
